@@ -75,3 +75,12 @@ def gen(seed, tier, scale):
         rng = case_rng(seed, ID, idx)
         yield idx, one(rng, with_past=True)
         idx += 1
+    # extraction as the `treetools grammar` command does it, file to file (one-token sentences, empty-looking corners
+    # included), against the model of the whole command and the API pipeline
+    import cli
+    from props import c09
+    ncli = (16 if tier == "quick" else 200) * scale
+    rngs = [case_rng(seed, ID, 700000 + i) for i in range(ncli)]
+    for i, c in enumerate(cli.pmap(c09.cli_case, rngs, workers=6)):
+        c.group = "grammar-command"
+        yield 700000 + i, c
